@@ -225,6 +225,33 @@ def run(tier: str) -> int:
     finally:
         shutil.rmtree(work, ignore_errors=True)
     rep.add_tlc(gen, dis)
+    # --- the context discipline observed on the REAL interpreter: statement traces (harness/linetrace.py) replayed by
+    # spec/StmtTrace.tla, which keeps the stack of enclosing `with` blocks and compares it with the compiled code's active context
+    from .. import linetrace
+    from . import c13
+    tjobs = [(core.seed(), tier, k) for k in range(2 if tier == 'quick' else 6)] + [(core.seed(), tier, 100 + c) for c in range(c13.LIBCHUNKS)]
+    tprogs, truns = [], []
+    for ps, rs, _ in core.pool_map(c13.record_traces, tjobs, chunksize=1):
+        base = len(tprogs)
+        tprogs += ps
+        for r_ in rs:
+            r_['pid'] = base + r_.pop('prog') + 1
+            r_['tid'] = len(truns)
+            truns.append(r_)
+    if truns:
+        tout = linetrace.validate([{k: r_[k] for k in ('tid', 'pid', 'ev', 'ret', 'exc', 'mut', 'cx0')} for r_ in truns], tprogs)
+        rep.add_tlc(tout.generated, tout.distinct)
+        for (tid, clause, what) in tout.mismatches:
+            if clause not in c13.CTX_CLAUSES:
+                continue        # facts of the static analyses: C13
+            r_ = truns[tid]
+            rep.mismatch({'clause': clause}, {'src': tprogs[r_['pid'] - 1]['src'], 'args': r_['args'], 'ctx': r_['ctx'], 'clause': clause,
+                                              'where': what, 'observed_by': 'statement trace of the real interpreter (sys.settrace)'})
+    rep.cov['statement_traces'] = len(truns)
+    rep.cov['statement_trace_events'] = sum(len(r_['ev']) for r_ in truns)
+    rep.cov['with_blocks_entered_on_traces'] = sum(1 for r_ in truns for a, b in zip(r_['ev'], r_['ev'][1:])
+                                                  if tprogs[r_['pid'] - 1]['lines'].get(a['l'], {}).get('k') == 'with'
+                                                  and str(tprogs[r_['pid'] - 1]['lines'][a['l']]['b0']) == b['l'])
     runs = sum(len(p['inputs']) for p in progs)
     skipc = judge(rep, progs, mm, skips, 'C04')
     both_return = sum(1 for p in progs for i in p['inputs'] if 'val' in i['out']) - sum(skipc.values())
